@@ -94,18 +94,23 @@ def validate(d, suite):
 
 
 def try_checks(d, props):
+    """Runs the checks in a private COPY of /verif (so several trials can run at once and /verif's generated
+    files / evidence are never disturbed) against a scratch worktree of /repo with the patch applied."""
     name = os.path.basename(os.path.abspath(d))
     meta = json.load(open(os.path.join(d, "meta.json")))
     props = props or [meta["property"]]
     wt = worktree(name + "-try", os.path.join(d, "patch.diff"))
+    vcopy = os.path.join(SCRATCH, "verif-" + name)
+    shutil.rmtree(vcopy, ignore_errors=True)
+    shutil.copytree(VERIF, vcopy, symlinks=True, ignore=shutil.ignore_patterns(".git", "replays", "__pycache__", "seeded"))
     res = {}
     try:
         for p in props:
             t0 = time.time()
-            r = sh(["./check", p, "--tier", "quick"], cwd=VERIF, env=dict(os.environ, VERIF_REPO=wt))
+            r = sh(["./check", p, "--tier", "quick"], cwd=vcopy, env=dict(os.environ, VERIF_REPO=wt))
             lines = [l for l in r.stdout.splitlines() if l.startswith(("VIOLATION", "KNOWN-FINDING", "FAIL ", "BROKEN "))]
             res[p] = dict(exit=r.returncode, detected=any(l.startswith("VIOLATION") for l in lines),
-                          no_failing_input=any("no-failing-input-found" in l for l in lines), lines=lines[:12], wall_s=round(time.time() - t0))
+                          no_failing_input=any("no-failing-input-found" in l for l in lines), lines=[l[:400] for l in lines[:12]], wall_s=round(time.time() - t0))
             replay = None
             for l in lines:
                 m = re.match(r"VIOLATION property=\S+ replay=(\S+)", l)
@@ -116,9 +121,7 @@ def try_checks(d, props):
                 res[p]["replay_excerpt"] = json.dumps(replay, default=str)[:1500]
     finally:
         drop(wt)
-        # restore generated files / evidence for the unchanged tree
-        for p in props:
-            sh(["./check", p, "--tier", "quick"], cwd=VERIF, env={k: v for k, v in os.environ.items() if k != "VERIF_REPO"})
+        shutil.rmtree(vcopy, ignore_errors=True)
     prev = {}
     f = os.path.join(d, "detection.json")
     if os.path.exists(f):
